@@ -978,7 +978,40 @@ func runHistory(h *History) (res *Result) {
 	s.op = len(h.Ops)
 	src := s.checkSaved()
 	res.OutHash = strHash(string(src))
+	// the final file, loaded afresh by the writer's own loader, must answer
+	// its accessors as the model predicts (without adopting that tree)
+	var nf *hclwrite.File
+	var ld hcl.Diagnostics
+	s.call("hclwrite.ParseConfig", func() { nf, ld = hclwrite.ParseConfig(append([]byte{}, src...), "final.hcl", hcl.InitialPos) })
+	if ld.HasErrors() {
+		fail("reload_failed", "the final file does not load: %s", dumpDiags(ld))
+	}
+	var nb *hclwrite.Body
+	s.call("File.Body", func() { nb = nf.Body() })
+	s.file = nf // accessor failures are reported against the reloaded tree
+	s.checkAccessors(nb, s.root, "<reloaded>")
+	var again []byte
+	s.call("File.Bytes", func() { again = nf.Bytes() })
+	// only inter-token spacing may differ (how comments are aligned after a
+	// reload is the formatter's business, property C09, not this one's)
+	if !sameTokens(src, again) {
+		fail("token_loss", "loading the final file and saving it unmodified changes its tokens:\n%s\n-----\n%s", src, again)
+	}
 	return res
+}
+
+func sameTokens(a, b []byte) bool {
+	ta, _ := lexToks(a)
+	tb, _ := lexToks(b)
+	if len(ta) != len(tb) {
+		return false
+	}
+	for i := range ta {
+		if mkTok(ta[i]) != mkTok(tb[i]) {
+			return false
+		}
+	}
+	return true
 }
 
 func strHash(s string) uint64 {
